@@ -532,6 +532,13 @@ func (c *Ctx) doConvert(fr *Frame, st *State, t *ssa.Convert) Val {
 		return Val{Typ: to, L: []T{wrapInt(to, x.one())}}
 	case isString(to):
 		if sl, ok := from.Underlying().(*types.Slice); ok {
+			if !isByteType(sl.Elem()) {
+				// string([]rune): UTF-8 encoding is not modelled; only the length bounds
+				c.trust("string([]rune) yields an unconstrained string of at most 4 bytes per rune (UTF-8 is not modelled)")
+				v := c.freshVal("runes2str", to, "")
+				c.sc.assume(and(le(app("slen", v.one()), app("*", "4", x.L[2])), imp(eq(x.L[2], "0"), eq(app("slen", v.one()), "0"))))
+				return v
+			}
 			return Val{Typ: to, L: []T{c.strOfBytes(st, sl.Elem(), x)}}
 		}
 		if isString(from) {
@@ -542,7 +549,15 @@ func (c *Ctx) doConvert(fr *Frame, st *State, t *ssa.Convert) Val {
 			return Val{Typ: to, L: []T{app("str.rune", x.one())}}
 		}
 	case isString(from):
-		if _, ok := to.Underlying().(*types.Slice); ok {
+		if sl, ok := to.Underlying().(*types.Slice); ok {
+			if !isByteType(sl.Elem()) {
+				// []rune(s): a fresh slice with between ceil(len/4) and len(s) elements (UTF-8 is not modelled)
+				c.trust("[]rune(s) yields a fresh slice of unconstrained runes, at most len(s) and at least len(s)/4 of them (UTF-8 is not modelled)")
+				r := c.allocRef(st, "runes")
+				n := c.sc.fresh("runes.len", sInt)
+				c.sc.assume(and(ge(n, "0"), le(n, app("slen", x.one())), ge(app("*", "4", n), app("slen", x.one()))))
+				return Val{Typ: to, L: []T{r, "0", n, n}}
+			}
 			return c.bytesOfStr(st, to, x.one())
 		}
 	}
@@ -762,4 +777,9 @@ func (c *Ctx) doNext(fr *Frame, st *State, reach T, t *ssa.Next) {
 func isValidType(t types.Type) bool {
 	b, ok := t.(*types.Basic)
 	return !(ok && b.Kind() == types.Invalid)
+}
+
+func isByteType(t types.Type) bool {
+	b, ok := t.Underlying().(*types.Basic)
+	return ok && (b.Kind() == types.Uint8 || b.Kind() == types.Byte)
 }
